@@ -749,3 +749,42 @@ Proof.
   unfold claim_released. rewrite claim_locktime_value by lia.
   destruct (c_side c); apply negb_true_iff; apply Z.ltb_ge; lia.
 Qed.
+
+(** * Funding scopes *)
+
+Lemma confirmed_scope_pending current pending s :
+  In s pending -> NoDup (map s_funding pending) ->
+  confirmed_scope current pending (Some (s_funding s)) = s.
+Proof.
+  intros Hin Hnd. unfold confirmed_scope. induction pending as [|p r IH]; [destruct Hin|].
+  cbn [find]. cbn [map] in Hnd. inversion Hnd as [|? ? Hnot Hnd']; subst.
+  destruct Hin as [-> | Hin].
+  - rewrite Z.eqb_refl. reflexivity.
+  - destruct (Z.eqb_spec (s_funding p) (s_funding s)) as [E | _].
+    + exfalso. apply Hnot. rewrite E. apply in_map. exact Hin.
+    + apply IH; assumption.
+Qed.
+
+Lemma confirmed_scope_current current pending : confirmed_scope current pending None = current.
+Proof. reflexivity. Qed.
+
+(** The balance the monitor reports for its own output of a confirmed commitment is the value of that
+    output in the commitment of the scope whose funding the commitment spends -- whichever scope that
+    is: the current one (nothing recorded) or any pending one (recorded as confirmed). *)
+Lemma main_balance_of_spent_scope sd h csv hs current pending st :
+  (forall b, In b (main_balance (closure_in sd h csv hs current pending None) st) -> b = BalAwaiting (scope_main sd current)) /\
+  (forall s, In s pending -> NoDup (map s_funding pending) ->
+     forall b, In b (main_balance (closure_in sd h csv hs current pending (Some (s_funding s))) st) ->
+               b = BalAwaiting (scope_main sd s)).
+Proof.
+  split.
+  - intros b Hb. unfold main_balance, closure_in in Hb. cbn [c_side c_main] in Hb. rewrite confirmed_scope_current in Hb.
+    destruct (ev_is _ st); [|destruct Hb]. destruct sd.
+    + destruct Hb as [<- | []]. reflexivity.
+    + destruct (ev_is _ st); [|destruct Hb]. destruct Hb as [<- | []]. reflexivity.
+  - intros s Hin Hnd b Hb. unfold main_balance, closure_in in Hb. cbn [c_side c_main] in Hb.
+    rewrite (confirmed_scope_pending current pending s Hin Hnd) in Hb.
+    destruct (ev_is _ st); [|destruct Hb]. destruct sd.
+    + destruct Hb as [<- | []]. reflexivity.
+    + destruct (ev_is _ st); [|destruct Hb]. destruct Hb as [<- | []]. reflexivity.
+Qed.
